@@ -639,6 +639,99 @@ theorem C15_gen_validators (s : State) (g : Folder) (F x : Name) :
   · unfold vFolderFileExists vFolderFileNotDeleted Folder.fileGuard
     cases g.getFile x false <;> simp
 
+/-! ### the model's `step`, assembled from the translated pieces -/
+
+/-- **Every operation of the model's `step` that is a file-system-level request or a tick is the translated code, assembled as the
+request tree says**. The `route…` functions are GENERATED from the `add_request` calls of `FileSystem._init_request_manager`: the
+validator attributes resolved through their bindings to the translated validators, the lambda's method / the handler closure to the
+translated one (which key leads to which sub-manager is the regenerated `requestTable`): `delete file` = `_FileExistsValidator` then `delete_file`; `delete folder` = `_FolderExistsValidator` then
+`delete_folder`; `restore file / folder` = the methods, unguarded; `create file / folder`, `access` = the handler closures;
+`pre_timestep`, `apply_timestep` = the methods. The `folder` route's guard is the two folder validators. For every state with `Inv`
+(the handlers need it) and all names. -/
+theorem C15_gen_step_from_translated {s : State} (h : Inv s) (F x : Name) (force : Bool) :
+    step s (.deleteFile F x) = routeDeleteFile s F x ∧
+    step s (.deleteFolder F) = routeDeleteFolder s F ∧
+    step s (.restoreFile F x) = routeRestoreFile s F x ∧
+    step s (.restoreFolder F) = routeRestoreFolder s F ∧
+    step s (.createFile F x force) = routeCreateFile s F x force ∧
+    step s (.createFolder F) = routeCreateFolder s F ∧
+    step s (.access F x) = routeRmAccess s F x ∧
+    (step s .preTick).1 = fsPreTimestep s ∧ (step s .tick).1 = fsApplyTimestep s ∧
+    (∀ k, viaFolder s F k = if !(routeRmFolderGuard s F) then (s, .failure) else viaFolder s F k) ∧
+    routeRmFileGuard s F x = (getFile s F x).isSome := by
+  unfold routeDeleteFile routeDeleteFolder routeRestoreFile routeRestoreFolder routeCreateFile routeCreateFolder routeRmAccess
+    routeRmFolderGuard routeRmFileGuard
+  obtain ⟨hc, hcf, ha⟩ := C15_gen_handlers h F x force
+  obtain ⟨hdf1, hdf2, hrf1, hrf2⟩ := C15_gen_fs_delete_restore_file s F x
+  obtain ⟨hrd1, hrd2, hdd1, hdd2⟩ := C15_gen_restore_delete_folder s F
+  have ob : ∀ (a : State × Bool) (b : State × Out), a.1 = b.1 → (a.2 = true ↔ b.2 = .success) → (b.2 = .success ∨ b.2 = .failure) →
+      fromBool a = b := by
+    intro a b h1 h2 h3
+    unfold fromBool ofBool
+    apply Prod.ext
+    · exact h1
+    · cases ha2 : a.2 with
+      | true => simp only [if_true]; exact (h2.mp ha2).symm
+      | false =>
+        simp only [Bool.false_eq_true, if_false]
+        rcases h3 with h3 | h3
+        · rw [h2.mpr h3] at ha2; exact Bool.noConfusion ha2
+        · exact h3.symm
+  refine ⟨?_, ?_, ?_, ?_, hc.symm, hcf.symm, ha.symm, (C15_gen_counter_resets s).1.symm, (C15_gen_apply_timestep s { g := { id := 0, name := "" } }).2.1.symm, ?_,
+    (C15_gen_validators s { id := 0, name := "" } F x).2.1⟩
+  · show deleteFile s F x = _
+    rw [(C15_gen_validators s { id := 0, name := "" } F x).2.1]
+    by_cases hv : (getFile s F x).isSome = true
+    · simp only [hv, Bool.not_true, Bool.false_eq_true, if_false]
+      refine (ob _ _ hdf1 hdf2 ?_).symm
+      unfold deleteFile getFile
+      cases getFolder s F with
+      | none => simp
+      | some g =>
+        dsimp only
+        split
+        · simp
+        · split <;> simp
+    · have hv' : (getFile s F x).isSome = false := by simpa using hv
+      simp only [hv', Bool.not_false, if_true]
+      unfold deleteFile
+      have : (getFile s F x).isNone = true := by
+        cases hq : getFile s F x with
+        | none => rfl
+        | some _ => rw [hq] at hv; simp at hv
+      simp [this]
+  · show deleteFolder s F = _
+    unfold vFolderExists
+    cases hg : getFolder s F false with
+    | none =>
+      have hg' : getFolder s F = none := hg
+      simp [deleteFolder, hg']
+    | some g =>
+      simp only [Option.isSome_some, Bool.not_true, Bool.false_eq_true, if_false]
+      refine (ob _ _ hdd1 hdd2 ?_).symm
+      have hg' : getFolder s F = some g := hg
+      unfold deleteFolder
+      rw [hg']
+      by_cases hr : F = "root" <;> simp [hr]
+  · show restoreFile s F x = _
+    refine (ob _ _ hrf1 hrf2 ?_).symm
+    unfold restoreFile
+    cases getFolder s F with
+    | none => simp
+    | some g =>
+      dsimp only
+      cases hq : g.getFile x true with
+      | none => simp [hq]
+      | some f => cases hb : (g.restoreFile x).2 <;> simp [hq, hb, ofBool]
+  · show restoreFolder s F = _
+    refine (ob _ _ hrd1 hrd2 ?_).symm
+    unfold restoreFolder
+    cases getFolder s F true <;> simp
+  · intro k
+    rw [(C15_gen_validators s { id := 0, name := "" } F x).1]
+    unfold viaFolder
+    by_cases hgd : folderGuard s F = true <;> simp [hgd]
+
 /-! ### the report -/
 
 /-- **`describe_state` of `FileSystem` and of `Folder` as translated are the model's `describe`**: one `folders` entry per live folder
